@@ -379,7 +379,12 @@ func (set *Set) add(hosts ...*Host) {
 		}
 		set.all[host.Addr] = host
 	}
-	set.addToHealthy(hosts...)
+	// the same address may appear more than once in hosts, only the last wins.
+	for _, host := range hosts {
+		if set.all[host.Addr] == host {
+			set.addToHealthy(host)
+		}
+	}
 }
 
 // Remove removes host from the set.
